@@ -627,7 +627,10 @@ impl AsyncVfsPath {
     /// # Ok::<(), VfsError>(())
     /// # });
     pub async fn exists(&self) -> VfsResult<bool> {
-        self.fs.fs.exists(&self.path).await
+        self.fs.fs.exists(&self.path).await.map_err(|err| {
+            err.with_path(&*self.path)
+                .with_context(|| "Could not check existence")
+        })
     }
 
     /// Returns the filename portion of this path
